@@ -28,6 +28,7 @@ from .state import State, Env, VCtx, OutOfSubset, BindingLost
 from .solve import feasible
 from .source import key_of_function, class_key, live_module
 from . import floats
+from . import quant as Q
 
 EXC_BUILTINS = {n: getattr(builtins, n) for n in dir(builtins)
                 if isinstance(getattr(builtins, n), type) and issubclass(getattr(builtins, n), BaseException)}
@@ -78,6 +79,7 @@ class Engine:
         self.ghost_hits = set()
         self.loops_seen = set()
         self.loop_bodies_reached = set()
+        self.finite = None
 
     # ------------------------------------------------------------------ helpers
     @property
@@ -250,10 +252,8 @@ class Engine:
                 return z3.BoolVal(False)
             return z3.And([self.py_eq(a.d[k], b.d[k]) for k in sa.fields] or [z3.BoolVal(True)])
         if isinstance(sa, SeqS) and isinstance(sb, SeqS):
-            k = z3.Int(V.fresh_name("eqk"))
-            ea, eb = V.seq_select(a, k), V.seq_select(b, k)
-            return z3.And(a.d[1] == b.d[1],
-                          z3.ForAll([k], z3.Implies(z3.And(k >= 0, k < a.d[1]), self.py_eq(ea, eb))))
+            return z3.And(a.d[1] == b.d[1], Q.forall(
+                self, z3.IntVal(0), a.d[1], lambda k: self.py_eq(V.seq_select(a, k), V.seq_select(b, k)), "eqk"))
         if type(sa) is not type(sb):
             return z3.BoolVal(False)
         raise OutOfSubset(f"== on {sa} / {sb}")
@@ -493,8 +493,7 @@ class Engine:
         if isinstance(s, TupS):
             return z3.Or([self.py_eq(x, item) for x in cont.d] or [z3.BoolVal(False)])
         if isinstance(s, SeqS):
-            k = z3.Int(V.fresh_name("ink"))
-            return z3.Exists([k], z3.And(k >= 0, k < cont.d[1], self.py_eq(V.seq_select(cont, k), item)))
+            return Q.exists(self, z3.IntVal(0), cont.d[1], lambda k: self.py_eq(V.seq_select(cont, k), item), "ink")
         if isinstance(s, MapS):
             return z3.Select(cont.d[0], V.leaves(V.coerce(item, s.key))[0])
         if isinstance(s, OptS) and isinstance(s.inner, SeqS):
